@@ -70,6 +70,8 @@ def run(ctx: Ctx) -> dict:
         ops.append({"op": "bic.parts", "t": cps(t), "ai": False})
     for t in ("", "ABC", "GENODEM", "GENODEM1G", "GENODEM1GL", "GENODEM1GLSX", "genodem1gls", "GENO DE M1 GLS"):
         ops.append({"op": "bic.parts", "t": cps(t), "ai": True})
+    import fuzz
+    ops = fuzz.extend(ctx, ops, "c11", n_seeds=800, quick=2000)
     events = calls.execute(ctx, ops, "c11")
     mism = calls.validate(ctx, "TraceCalls", events, env, "c11", per_shard=4000)
     calls.report(ctx, mism, None, keyfn)
